@@ -237,6 +237,22 @@ func setup(tier string, seed uint64) {
 
 var handCFF [][]byte
 
+var handCmap []struct {
+	name string
+	data []byte
+}
+
+func init() {
+	for _, n := range []int{2, 40, 900, 4000} {
+		for _, share := range []bool{true, false} {
+			handCmap = append(handCmap, struct {
+				name string
+				data []byte
+			}{fmt.Sprintf("hand-made cmap: %d records, shared subtable %v", n+1, share), simgen.CmapOverlap(n, share)})
+		}
+	}
+}
+
 var decoders = []string{"sfnt.Read", "sfnt.Read(streaming)", "header.Read", "cff.Read", "cmap.Decode", "glyf.Decode", "gtab.Read(GSUB)", "gtab.Read(GPOS)",
 	"gdef.Read", "coverage.Read", "coverage.ReadSet", "classdef.Read", "name.Decode", "head.Read", "hmtx.Decode", "maxp.Read", "os2.Read", "post.Read", "kern.Read"}
 
@@ -314,7 +330,7 @@ func rss(c *wk.Case, data []byte) *simio.ReadSeekSizer {
 	return simio.NewReadSeekSizer(data, t)
 }
 
-func fontBattery(c *wk.Case, f *sfnt.Font) {
+func fontBattery(c *wk.Case, f *sfnt.Font, inputLen int) {
 	n := 0
 	c.MustNotPanic("accessors/NumGlyphs", func() { n = f.NumGlyphs() })
 	c.MustNotPanic("accessors/Widths", func() { f.Widths(); f.WidthsPDF(); f.IsFixedPitch() })
@@ -330,7 +346,7 @@ func fontBattery(c *wk.Case, f *sfnt.Font) {
 		gid := glyph.ID(g)
 		c.MustNotPanic("accessors/GlyphWidth", func() { f.GlyphWidth(gid); f.GlyphWidthPDF(gid); f.GlyphBBox(gid) })
 	}
-	cmapBattery(c, f.CMapTable)
+	cmapBattery(c, f.CMapTable, inputLen)
 	if o, ok := f.Outlines.(*glyf.Outlines); ok {
 		glyfBattery(c, o.Glyphs)
 	}
@@ -341,7 +357,7 @@ func fontBattery(c *wk.Case, f *sfnt.Font) {
 	simhook.Next = ^uint64(0)
 }
 
-func cmapBattery(c *wk.Case, tab cmap.Table) {
+func cmapBattery(c *wk.Case, tab cmap.Table, inputLen int) {
 	if tab == nil {
 		return
 	}
@@ -373,7 +389,15 @@ func cmapBattery(c *wk.Case, tab cmap.Table) {
 			}
 		})
 	}
+	// re-encoding: the subtables of an accepted table are disjoint or
+	// identical pieces of the input, so what Encode builds is bounded by the
+	// input size like the decoding itself
+	var m meter
+	m.start()
 	c.MustNotPanic("accessors/cmap.Encode", func() { tab.Encode() })
+	if alloc, limit := m.delta(), uint64(64<<20+1024*inputLen); alloc > limit {
+		c.Fail("allocation", "accessors/cmap.Encode", "re-encoding the character map decoded from an input of %d bytes allocated %d bytes (bound %d); the table has %d subtables", inputLen, alloc, limit, len(tab))
+	}
 }
 
 func glyfBattery(c *wk.Case, gg glyf.Glyphs) {
@@ -426,7 +450,7 @@ func run(c *wk.Case) {
 		})
 		if err == nil && f != nil {
 			accepted = true
-			fontBattery(c, f)
+			fontBattery(c, f, len(input))
 		}
 	case "header.Read":
 		a := pick(t, "")
@@ -556,6 +580,14 @@ func run(c *wk.Case) {
 			src, srcName = handCFF[i], fmt.Sprintf("hand-made CFF #%d (0-7 with subroutines, 8-19 CID-keyed)", i)
 			c.Count("handmade_cff_cases", 1)
 		}
+		if dec == "cmap.Decode" && t.Chance(1, 8) {
+			// hand-made character maps: many encoding records that share
+			// one subtable (legal) or point at mutually overlapping
+			// subtables (to be refused, or at least not multiplied)
+			i := t.Draw(len(handCmap))
+			src, srcName = handCmap[i].data, handCmap[i].name
+			c.Count("handmade_cmap_cases", 1)
+		}
 		if (dec == "gtab.Read(GSUB)" || dec == "gtab.Read(GPOS)") && t.Chance(1, 6) {
 			// as another font tool would write it: extension lookups in a
 			// small table, sometimes with a shared offset
@@ -606,7 +638,7 @@ func run(c *wk.Case) {
 			guarded(c, dec, len(input), func() { tab, err = cmap.Decode(input) })
 			if err == nil {
 				accepted = true
-				cmapBattery(c, tab)
+				cmapBattery(c, tab, len(input))
 			}
 		case "gtab.Read(GSUB)", "gtab.Read(GPOS)":
 			tp := gtab.Type(gtab.TypeGsub)
